@@ -183,7 +183,7 @@ func verif_VManager_Close(vm *Manager) {
 //verif:contract (~/client/visitor.Helper).ConnectServer
 //verif:trusted
 //verif:modifies *
-//verif:preserves H.client.visitor.STCPVisitor. H.client.visitor.BaseVisitor. H.pkg.config.v1.
+//verif:preserves H.client.visitor.STCPVisitor. H.client.visitor.SUDPVisitor. H.client.visitor.XTCPVisitor. H.client.visitor.BaseVisitor. H.pkg.config.v1.
 func verif_Helper_ConnectServer(h Helper) {
 	c, err := h.ConnectServer()
 	verif.Ensures(err != nil || c != nil, "connection_or_error")
@@ -230,5 +230,108 @@ func verif_STCPVisitor_handleConn(sv *STCPVisitor, userConn net.Conn) {
 	}
 	if verif.Called("Helper).ConnectServer") && verif.RetErr("Helper).ConnectServer", 1) == nil {
 		verif.Ensures(verif.CalledWith("Conn).Close", 0, verif.Ret[net.Conn]("Helper).ConnectServer", 0)), "visitor_connection_closed_when_done")
+	}
+}
+
+// ---------------------------------------------------------------- sudp and xtcp visitors
+
+//verif:contract (~/client/visitor.Helper).TransferConn
+//verif:trusted
+//verif:modifies *
+//verif:preserves H.client.visitor.STCPVisitor. H.client.visitor.SUDPVisitor. H.client.visitor.XTCPVisitor. H.client.visitor.BaseVisitor. H.pkg.config.v1.
+func verif_Helper_TransferConn(h Helper, name string, conn net.Conn) { _ = h.TransferConn(name, conn) }
+
+// SUDPVisitor.getNewVisitorConn (C08 "an admitted visitor stream is
+// byte-transparent whatever encryption and compression the visitor and the
+// proxy each declare", C03, C05): the request is signed for the configured
+// proxy and declares exactly the layers the visitor then builds - encryption
+// keyed by the secret key (not the token) directly on the visitor connection
+// iff configured, compression directly above iff configured - the stack the
+// server builds for that declaration.
+//
+//verif:contract (*~/client/visitor.SUDPVisitor).getNewVisitorConn
+//verif:props C08 C03 C05
+func verif_SUDPVisitor_getNewVisitorConn(sv *SUDPVisitor) {
+	verif.Requires(sv.cfg != nil && sv.BaseVisitor != nil, "constructed_by_NewVisitor")
+	enc, comp, key, name := sv.cfg.Transport.UseEncryption, sv.cfg.Transport.UseCompression, sv.cfg.SecretKey, sv.cfg.ServerName
+	verif.ResetEvents()
+	conn, err := sv.getNewVisitorConn()
+	const evEnc, evComp, evAsk, evWrap = "golib/io.WithEncryption", "golib/io.WithCompression$", "msg.WriteMsg", "net.WrapReadWriteCloserToConn"
+	if verif.Called(evAsk) {
+		m, isAsk := verif.NthArg[msg.Message](evAsk, 0, 1).(*msg.NewVisitorConn)
+		verif.Ensures(isAsk && m.ProxyName == name && m.SignKey == util.GetAuthKey(key, m.Timestamp) && m.UseEncryption == enc && m.UseCompression == comp, "request_signed_for_the_configured_proxy_and_declares_the_layers")
+	}
+	if err == nil {
+		vc := verif.Ret[net.Conn]("Helper).ConnectServer", 0)
+		verif.Ensures(conn != nil && verif.RetErr(evAsk, 0) == nil && verif.RetErr("msg.ReadMsgInto", 0) == nil, "stream_only_after_the_server_agreed")
+		verif.Ensures(verif.Called(evEnc) == enc && verif.Called(evComp) == comp, "layers_iff_configured")
+		var below any = vc
+		if enc {
+			verif.Ensures(verif.Same(verif.NthArg[any](evEnc, 0, 0), below) && verif.CalledWith(evEnc, 1, []byte(key)), "encryption_directly_on_the_visitor_connection_keyed_by_the_secret")
+			below = verif.Ret[any](evEnc, 0)
+		}
+		if comp {
+			verif.Ensures(verif.Same(verif.NthArg[any](evComp, 0, 0), below), "compression_directly_above")
+			below = verif.Ret[any](evComp, 0)
+		}
+		verif.Ensures(verif.Same(verif.NthArg[any](evWrap, 0, 0), below) && verif.Same(verif.NthArg[any](evWrap, 0, 1), any(vc)), "top_of_the_stack_is_the_datagram_stream")
+	}
+}
+
+// The tunnel session (kcp or quic over the punched hole) is library-backed
+// code behind an interface: unknown code here. Assumed (listed): it yields a
+// connection or an error and does not touch the visitor's configuration.
+//
+//verif:contract (~/client/visitor.TunnelSession).OpenConn
+//verif:trusted
+//verif:modifies *
+//verif:preserves H.client.visitor.STCPVisitor. H.client.visitor.SUDPVisitor. H.client.visitor.XTCPVisitor. H.client.visitor.BaseVisitor. H.pkg.config.v1.
+func verif_TunnelSession_OpenConn(ts TunnelSession, ctx context.Context) {
+	c, err := ts.OpenConn(ctx)
+	verif.Ensures(err != nil || c != nil, "connection_or_error")
+}
+
+//verif:contract (~/client/visitor.TunnelSession).Close
+//verif:trusted
+//verif:modifies *
+//verif:preserves H.client.visitor.STCPVisitor. H.client.visitor.SUDPVisitor. H.client.visitor.XTCPVisitor. H.client.visitor.BaseVisitor. H.pkg.config.v1.
+func verif_TunnelSession_Close(ts TunnelSession) { ts.Close() }
+
+// XTCPVisitor.handleConn (C01 "a peer's connection is closed within bounded
+// time", C08): the user connection is closed on every path except a
+// successful hand-over to the fallback visitor (which then owns it); when the
+// tunnel opens it is joined once with the top of the declared stack -
+// encryption keyed by the secret key directly on the tunnel connection,
+// compression directly above.
+//
+//verif:contract (*~/client/visitor.XTCPVisitor).handleConn
+//verif:props C01 C08
+//verif:kinds post,pre
+func verif_XTCPVisitor_handleConn(sv *XTCPVisitor, userConn net.Conn) {
+	verif.Requires(sv.cfg != nil && sv.BaseVisitor != nil, "constructed_by_NewVisitor")
+	enc, comp, key, fb := sv.cfg.Transport.UseEncryption, sv.cfg.Transport.UseCompression, sv.cfg.SecretKey, sv.cfg.FallbackTo
+	verif.ResetEvents()
+	sv.handleConn(userConn)
+	const evJoin, evEnc, evComp, evHand, evOpen = "golib/io.Join", "golib/io.WithEncryption", "golib/io.WithCompressionFromPool", "Helper).TransferConn", "XTCPVisitor).openTunnel"
+	handed := verif.Called(evHand) && verif.RetErr(evHand, 0) == nil
+	if handed {
+		verif.Ensures(fb != "" && verif.RetErr(evOpen, 1) != nil && verif.CalledWith(evHand, 1, fb) && verif.Same(verif.NthArg[any](evHand, 0, 2), any(userConn)), "handed_to_the_configured_fallback_only_when_no_tunnel_opens")
+		verif.Ensures(!verif.CalledWith("Conn).Close", 0, userConn), "handed_over_connection_is_left_to_its_new_owner")
+	} else {
+		verif.Ensures(verif.CalledWith("Conn).Close", 0, userConn), "user_connection_closed_unless_handed_over")
+	}
+	if verif.Called(evJoin) {
+		tc := verif.Ret[net.Conn](evOpen, 0)
+		verif.Ensures(verif.RetErr(evOpen, 1) == nil && verif.Called(evEnc) == enc && verif.Called(evComp) == comp, "layers_iff_configured")
+		var below any = tc
+		if enc {
+			verif.Ensures(verif.Same(verif.NthArg[any](evEnc, 0, 0), below) && verif.CalledWith(evEnc, 1, []byte(key)), "encryption_directly_on_the_tunnel_keyed_by_the_secret")
+			below = verif.Ret[any](evEnc, 0)
+		}
+		if comp {
+			verif.Ensures(verif.Same(verif.NthArg[any](evComp, 0, 0), below), "compression_directly_above")
+			below = verif.Ret[any](evComp, 0)
+		}
+		verif.Ensures(verif.Same(verif.NthArg[any](evJoin, 0, 0), any(userConn)) && verif.Same(verif.NthArg[any](evJoin, 0, 1), below) && verif.CallCount(evJoin) == 1, "user_connection_joined_once_with_the_top_of_the_stack")
 	}
 }
